@@ -8,10 +8,13 @@ import A2lVerif.Model.Basic
     (layout is ignored by it) is equality of `Node`s.
 
     Every Rust pass is one function here, in the Rust order (see `mergeSt`). The passes that follow the
-    scheme `calculate_item_actions` / `rename_*` / move are split into a *plan* step (`planNs`: compute the
-    actions, rename the references in ALL remaining nodes of B at exactly the sites the Rust `rename_*`
-    function touches: table `covered`) and an *apply* step (`applyNs`: move B's elements), because
-    `merge_objects` interleaves two of them (plan objects, plan typedefs, move objects, move typedefs).
+    scheme `calculate_item_actions` / `rename_*` / move are split into a *plan* step (compute the actions,
+    rename the references in ALL remaining nodes of B at exactly the sites the Rust `rename_*` function
+    touches: table `covered`) and an *apply* step (`applyNs`: move B's elements). The plan step is a single
+    round (`planNs`: COMPU_TAB…, COMPU_METHOD, RECORD_LAYOUT, FRAME) or, for namespaces whose elements refer
+    to elements of the same group of namespaces, the fixpoint loop `planLoop` (UNIT; objects + typedefs in
+    ONE loop; TRANSFORMER): the actions are re-evaluated on the renamed module until a round produces no
+    new renames.
 
     Not visible in the abstraction (documented deviations, see the report):
     * MEMORY_SEGMENT / MEMORY_LAYOUT / SYSTEM_CONSTANT live inside MOD_PAR: when both modules have a MOD_PAR
@@ -230,6 +233,55 @@ def applyNs (ns : Ns) (st : St) : St :=
   { st with a := st.a ++ appendLoop (st.plan ns) [] (nsNodes ns st.b),
             b := st.b.filter fun n => !hasTag ns.tags n }
 
+/-! ### the fixpoint loop of `merge_unit`, `merge_objects`, `merge_transformer` -/
+
+/-- `new_renames.retain(|name, _| !rename_table.contains_key(name))` -/
+def retainNew (table new : Tbl String) : Tbl String := new.filter fun kv => (table.get kv.1).isNone
+
+/-- `for name in rename_table.keys() { merge_action.insert(name.clone(), true) }` -/
+def forceTrue (table : Tbl String) (act : Tbl Bool) : Tbl Bool := table.foldl (fun acc kv => acc.insert kv.1 true) act
+
+/-- the state inside one round of the loop -/
+structure Round where
+  b : Module
+  /-- `merge_action` computed in this round, per namespace -/
+  act : Ns → Tbl Bool
+  /-- `new_renames` of this round, per namespace -/
+  new : Ns → Tbl String
+
+/-- one namespace inside a round: `calculate_item_actions` on the current merge module, keep the renames that are
+    new, apply them to the references of the merge module -/
+def roundStep (a : Module) (ts : Ns → Tbl String) (r : Round) (ns : Ns) : Round :=
+  let p := calcActions (nsNodes ns a) (nsNodes ns r.b)
+  let new := retainNew (ts ns) p.ren
+  { b := r.b.map (renameNode ns new),
+    act := fun n => if n = ns then p.act else r.act n,
+    new := fun n => if n = ns then new else r.new n }
+
+/-- one round: the namespaces of the loop in turn (objects, then typedefs) -/
+def loopRound (a : Module) (ts : Ns → Tbl String) (nss : List Ns) (b : Module) : Round :=
+  nss.foldl (roundStep a ts) ⟨b, fun _ => [], fun _ => []⟩
+
+/-- `loop { …; let done = new_renames.is_empty(); rename_table.extend(new_renames); if done { break action } }`
+    followed by the forcing of the renamed names to action `true`; `ts` = the accumulated rename tables.
+    With fuel: `actions_fixpoint_terminates` shows that the fuel of `planLoop` is never used up. -/
+def fixLoop (a : Module) (nss : List Ns) : Nat → Module → (Ns → Tbl String) → Module × (Ns → Plan)
+  | 0, b, ts => (b, fun ns => ⟨[], ts ns⟩)
+  | fuel + 1, b, ts =>
+    let r := loopRound a ts nss b
+    let ts' : Ns → Tbl String := fun ns => r.new ns ++ ts ns
+    if nss.all (fun ns => (r.new ns).isEmpty) then
+      (r.b, fun ns => ⟨forceTrue (ts' ns) (r.act ns), ts' ns⟩)
+    else fixLoop a nss fuel r.b ts'
+
+/-- every non-final round renames at least one more element of B: `|items| + 1` rounds suffice -/
+def loopFuel (nss : List Ns) (b : Module) : Nat := (nss.map fun ns => (nsNodes ns b).length).sum + 1
+
+/-- the plan step of `merge_unit` / `merge_objects` / `merge_transformer` for the namespaces `nss` -/
+def planLoop (nss : List Ns) (st : St) : St :=
+  let res := fixLoop st.a nss (loopFuel nss st.b) st.b (fun _ => [])
+  { st with b := res.1, plans := (nss.map fun ns => (ns, res.2 ns)).reverse ++ st.plans }
+
 /-- A2ML, MOD_COMMON, VARIANT_CODING: taken from B iff A has none -/
 def takeOpt (tag : String) (st : St) : St :=
   match st.b.find? (·.tag == tag) with
@@ -306,18 +358,18 @@ def mergeUserRights (st : St) : St :=
 
 def mergeA2ml : St → St := takeOpt "A2ML"
 def mergeIfData : St → St := takeAll "IF_DATA"
-def mergeUnit (st : St) : St := applyNs .unit (planNs .unit st)
+def mergeUnit (st : St) : St := applyNs .unit (planLoop [.unit] st)
 def mergeCompuTab (st : St) : St := applyNs .compuTab (planNs .compuTab st)
 def mergeCompuMethod (st : St) : St := applyNs .compuMethod (planNs .compuMethod st)
 def mergeRecordLayout (st : St) : St := applyNs .recordLayout (planNs .recordLayout st)
 def mergeModCommon : St → St := takeOpt "MOD_COMMON"
-/-- `merge_objects`: actions + renames for the objects, then for the typedefs, then both are moved -/
+/-- `merge_objects`: actions + renames for the objects and the typedefs in one loop, then both are moved -/
 def mergeObjects (st : St) : St :=
-  applyNs .typedef (applyNs .object (planNs .typedef (planNs .object st)))
+  applyNs .typedef (applyNs .object (planLoop [.object, .typedef] st))
 def mergeFunction : St → St := mergeByName "FUNCTION" functionSites
 def mergeGroup : St → St := mergeByName "GROUP" groupSites
 def mergeFrame (st : St) : St := applyNs .frame (planNs .frame st)
-def mergeTransformer (st : St) : St := applyNs .transformer (planNs .transformer st)
+def mergeTransformer (st : St) : St := applyNs .transformer (planLoop [.transformer] st)
 def mergeVariantCoding : St → St := takeOpt "VARIANT_CODING"
 
 def mergeSt (a b : Module) : St :=
